@@ -54,4 +54,5 @@ for pid in sorted(CLAIMED):
         "technique": tech,
     })
 json.dump(m, open("/verif/MANIFEST.json", "w"), indent=1)
+json.dump({k: v[2] for k, v in CLAIMED.items()}, open("/verif/prop_notes.json", "w"), indent=1)
 print("MANIFEST.json:", len(m["checks"]), "checks,", len(m["not_applicable"]), "not applicable")
